@@ -258,17 +258,28 @@ func c05Run(c *Ctx) {
 	cliCorpusPass(c, "L0", corpus, mainF, true)
 }
 
-// c05Collisions: the same literal text at two sensitive leaves of different classes — in one
-// document, in the query and the update of one command, and in two consecutive lines (both orders).
-// The placeholder of a leaf must follow the leaf's own class, never what the text was seen as before.
-func c05Collisions(c *Ctx, first map[string]string) {
+// collisionGroups enumerates the groups of lines in which ONE text occurs in two class contexts: texts (an ObjectId-,
+// date-, base64-, e-mail-shaped and a plain one, each short and — for the shapes that allow it — 88 and 300 bytes
+// long) x every ordered pair of contexts (plain, under $eq, in an $in list, $oid, $date, $binary) x 4 placements
+// (one document, query + update of one command, two pipeline stages, two consecutive lines) x {two field names,
+// the same field name at both places}.
+func collisionGroups(yield func(desc string, cases []*sweepCase)) {
 	n := 0
-	texts := []func() string{
-		func() string { n++; return fmt.Sprintf("5f1e2d3c4b5a69788796%04x", n) },
-		func() string { n++; return fmt.Sprintf("2031-07-09T11:%02d:%02d.456Z", n/60%60, n%60) },
-		func() string { n++; return fmt.Sprintf("Y29sbGlzaW9uIHRleHQg%04d", n) },
-		func() string { n++; return fmt.Sprintf("user%d@mail.example.com", n) },
-		func() string { n++; return fmt.Sprintf("plain text %d", n) },
+	b64 := func(k int) string {
+		return base64.StdEncoding.EncodeToString([]byte(fmt.Sprintf("collision payload %06d %s", n, strings.Repeat("pad.", k))))
+	}
+	texts := []struct {
+		email bool
+		f     func() string
+	}{
+		{false, func() string { n++; return fmt.Sprintf("5f1e2d3c4b5a69788796%04x", n) }},
+		{false, func() string { n++; return fmt.Sprintf("2031-07-09T11:%02d:%02d.456Z", n/60%60, n%60) }},
+		{false, func() string { n++; return fmt.Sprintf("Y29sbGlzaW9uIHRleHQg%04d", n%10000) }},
+		{true, func() string { n++; return fmt.Sprintf("user%d@mail.example.com", n) }},
+		{false, func() string { n++; return fmt.Sprintf("plain text %d", n) }},
+		{false, func() string { n++; return b64(10) }},                 // 88 characters, valid base64 and an ordinary string
+		{false, func() string { n++; return b64(50) }},                 // ~300 characters
+		{false, func() string { n++; return fmt.Sprintf("%064x", n) }}, // 64 hex digits
 	}
 	type ctxDef struct {
 		name  string
@@ -280,12 +291,14 @@ func c05Collisions(c *Ctx, first map[string]string) {
 		{"$oid", ClsOid, func(l *LNode) *LNode { return LO("$oid", l) }},
 		{"$date", ClsDate, func(l *LNode) *LNode { return LO("$date", l) }},
 		{"$binary", ClsBin, func(l *LNode) *LNode { return LO("$binary", LO("base64", l, "subType", LS("00").Keep())) }},
+		{"$eq", "", func(l *LNode) *LNode { return LO("$eq", l) }},
+		{"$in", "", func(l *LNode) *LNode { return LO("$in", LA(l)) }},
 	}
-	mk := func(ti int, text string, cd ctxDef) (*LNode, *LNode) {
+	mk := func(email bool, text string, cd ctxDef) (*LNode, *LNode) {
 		cls := cd.class
 		if cls == "" {
 			cls = ClsStr
-			if ti == 3 {
+			if email {
 				cls = ClsEmail
 			}
 		}
@@ -297,18 +310,24 @@ func c05Collisions(c *Ctx, first map[string]string) {
 		return LO("t", LO("$date", LS("2024-05-01T10:00:00.123+00:00")), "s", LS("I"), "c", LS("COMMAND"), "id", LN("51803"), "ctx", LS("conn7"), "msg", LS("Slow query"),
 			"attr", LO("type", LS("command"), "ns", LS("dbZq1.coQx7"), "command", cmd, "durationMillis", LN("3")))
 	}
-	fsets := []Flags{{}, {R: `x"y\z`}, {N: true, B: true, F: []string{"dbZq1.coQx7"}}}
-	for ti, tf := range texts {
+	for _, tx := range texts {
 		for a, ca := range ctxs {
 			for b, cb := range ctxs {
-				if a == b {
-					continue
+				if a == b || (ca.class == "" && cb.class == "") {
+					continue // two contexts of the same class are no collision
 				}
 				for place := 0; place < 4; place++ {
-					for _, fl := range fsets {
-						text := tf()
-						va, la := mk(ti, text, ca)
-						vb, lb := mk(ti, text, cb)
+					for same := 0; same < 2; same++ {
+						if place == 2 && same == 1 && (cb.name == "$eq" || cb.name == "$in") {
+							continue // not an expression
+						}
+						text := tx.f()
+						va, la := mk(tx.email, text, ca)
+						vb, lb := mk(tx.email, text, cb)
+						na, nb := "fa", "fb"
+						if same == 1 {
+							nb = "fa"
+						}
 						var cases []*sweepCase
 						add := func(cmd *LNode, secrets ...*LNode) {
 							root := line(cmd)
@@ -317,54 +336,70 @@ func c05Collisions(c *Ctx, first map[string]string) {
 						}
 						switch place {
 						case 0:
-							add(LO("find", LS("coQx7"), "filter", LO(Fn("fa"), va, Fn("fb"), vb), "$db", LS("dbZq1")), la, lb)
-						case 1:
-							add(LO("findAndModify", LS("coQx7"), "query", LO(Fn("fa"), va), "update", LO("$set", LO(Fn("fb"), vb)), "$db", LS("dbZq1")), la, lb)
-						case 2:
-							add(LO("aggregate", LS("coQx7"), "pipeline", LA(LO("$match", LO(Fn("fa"), va)), LO("$addFields", LO(Fn("fb"), LO("$ifNull", LA(LS("$x").DC(), vb))))), "$db", LS("dbZq1")), la, lb)
-						default:
-							add(LO("find", LS("coQx7"), "filter", LO(Fn("fa"), va), "$db", LS("dbZq1")), la)
-							add(LO("insert", LS("coQx7"), "documents", LA(LO(Fn("fb"), vb)), "$db", LS("dbZq1")), lb)
-						}
-						desc := fmt.Sprintf("the text %q as %s then as %s (placement %d)", text, ca.name, cb.name, place)
-						eval := func() (string, *LNode, string, string) {
-							fl.Apply()
-							for _, sc := range cases {
-								out, ok, pv := redactLine(sc.Line)
-								if pv != nil || !ok {
-									return "", nil, "", ""
-								}
-								j, err := ParseJSON([]byte(out))
-								if err != nil {
-									return "", nil, "", ""
-								}
-								for _, p := range c05Problems(sc, fl, j, map[string]string{}) {
-									return p.problem, p.node, p.got, sc.Line
-								}
+							if same == 1 {
+								add(LO("find", LS("coQx7"), "filter", LO(Fn(na), va, Fn("sub"), LO(Fn(nb), vb)), "$db", LS("dbZq1")), la, lb)
+							} else {
+								add(LO("find", LS("coQx7"), "filter", LO(Fn(na), va, Fn(nb), vb), "$db", LS("dbZq1")), la, lb)
 							}
-							return "", nil, "", ""
+						case 1:
+							add(LO("findAndModify", LS("coQx7"), "query", LO(Fn(na), va), "update", LO("$set", LO(Fn(nb), vb)), "$db", LS("dbZq1")), la, lb)
+						case 2:
+							add(LO("aggregate", LS("coQx7"), "pipeline", LA(LO("$match", LO(Fn(na), va)), LO("$addFields", LO(Fn(nb), LO("$ifNull", LA(LS("$x").DC(), vb))))), "$db", LS("dbZq1")), la, lb)
+						default:
+							add(LO("find", LS("coQx7"), "filter", LO(Fn(na), va), "$db", LS("dbZq1")), la)
+							add(LO("insert", LS("coQx7"), "documents", LA(LO(Fn(nb), vb)), "$db", LS("dbZq1")), lb)
 						}
-						prob, node, got, ln := eval()
-						c.Eval(int64(len(cases)))
-						c.Distinct(cases[0].Line)
-						c.Count("collision_cases", 1)
-						if prob == "" {
-							c.Outcome("all-placeholders-valid")
-							continue
+						names := "two field names"
+						if same == 1 {
+							names = "the same field name"
 						}
-						c.Outcome("problem")
-						var lines []string
-						for _, sc := range cases {
-							lines = append(lines, sc.Line)
-						}
-						c.Violate("ph-collision:"+node.Lab.Class+":"+prob, fmt.Sprintf("%s: the %s leaf is emitted as %s (%s); flags [%s]; line: %s", desc, node.Lab.Class, got, prob, fl, trunc(ln, 400)),
-							int64(len(ln)), map[string]any{"kind": "collision", "lines": lines, "flags": fl.String(), "desc": desc},
-							func() bool { p, _, _, _ := eval(); return p != "" })
+						yield(fmt.Sprintf("the text %q as %s then as %s (placement %d, %s)", trunc(text, 60), ca.name, cb.name, place, names), cases)
 					}
 				}
 			}
 		}
 	}
+}
+
+func c05Collisions(c *Ctx, first map[string]string) {
+	fsets := []Flags{{}, {R: `x"y\z`}, {N: true, B: true, F: []string{"dbZq1.coQx7"}}}
+	collisionGroups(func(desc string, cases []*sweepCase) {
+		for _, fl := range fsets {
+			eval := func() (string, *LNode, string, string) {
+				fl.Apply()
+				for _, sc := range cases {
+					out, ok, pv := redactLine(sc.Line)
+					if pv != nil || !ok {
+						return "", nil, "", ""
+					}
+					j, err := ParseJSON([]byte(out))
+					if err != nil {
+						return "", nil, "", ""
+					}
+					for _, p := range c05Problems(sc, fl, j, map[string]string{}) {
+						return p.problem, p.node, p.got, sc.Line
+					}
+				}
+				return "", nil, "", ""
+			}
+			prob, node, got, ln := eval()
+			c.Eval(int64(len(cases)))
+			c.Distinct(cases[0].Line)
+			c.Count("collision_cases", 1)
+			if prob == "" {
+				c.Outcome("all-placeholders-valid")
+				continue
+			}
+			c.Outcome("problem")
+			var lines []string
+			for _, sc := range cases {
+				lines = append(lines, sc.Line)
+			}
+			c.Violate("ph-collision:"+node.Lab.Class+":"+prob, fmt.Sprintf("%s: the %s leaf is emitted as %s (%s); flags [%s]; line: %s", desc, node.Lab.Class, got, prob, fl, trunc(ln, 400)),
+				int64(len(ln)), map[string]any{"kind": "collision", "lines": lines, "flags": fl.String(), "desc": desc},
+				func() bool { p, _, _, _ := eval(); return p != "" })
+		}
+	})
 	Flags{}.Apply()
 }
 
